@@ -295,7 +295,7 @@ class Renderer:
              "from cohdl import Entity, Port, Bit, BitVector, Unsigned, Signed, Signal, Temporary, Array, Null, Full, op, "
              "std, select_with, enum", "", "SINK = []", "", "", "@cohdl.pyeval", "def probe(ctx, i, v):",
              "    SINK.append((ctx, i, v))", ""]
-        enums = sorted({p[2] for p in case["ports"] if p[1] == "enum"} | {ty[1] for ty in types.values() if ty[0] == "enum"}
+        enums = sorted({p[2] for p in case["ports"] if p[1] == "enum"} | {types[i][1] for i in idxs if types[i][0] == "enum"}
                        | set(self._enum_consts(idxs)))
         for n in enums:
             L += ["", f"class E{n}(enum.Enum):"] + [f"    m{n}k{i} = enum.auto()" for i in range(n)]
@@ -812,7 +812,8 @@ class _Gen:
             if w >= 2:
                 c += [("u", self.draw(self.st.integers(1, w - 1)))] * 2
             src = self.pick(c)
-        return ["conv", self.pick(CONV_HOWS), k, w, self.sub(src, d)]
+        hows = CONV_HOWS[:2] if k == "bv" else CONV_HOWS  # std.Value[BitVector] passes u/s temporaries through
+        return ["conv", self.pick(hows), k, w, self.sub(src, d)]
 
     def mk_view(self, ty, d):
         k, w = ty
